@@ -12,8 +12,9 @@ the extractors see of a given tree, and `insertNoise` / `strip` say which trees 
   nextSegment         extractors/merge.py:35-36,109 (`segments[i + 1]` over the FILTERED list)
   tableParts          sqlfluff/models.py:43-75 `SqlFluffTable.of` — with the repair D40 (noise dropped before the positional
                       logic); `tablePartsRaw` is the code before the repair
-  splitKeep           utils/helpers.py:55-69 `split`: the filter that drops `;`-only and comment-only pieces (the splitter
-                      itself, sqlparse, is not modelled: pieces are given)
+  splitKeep           utils/helpers.py:55-69 `split`: the filter that drops `;`-only and comment-only pieces
+  cutPieces / splitModel   sqlparse's statement splitter at nesting level 0 (engine/statement_splitter.py) over a given token
+                      stream, followed by that filter (sqlparse's lexer is not modelled: tokens are given)
 
 Core Lean only.
 -/
